@@ -27,7 +27,7 @@ EXTENDS TraceBase
 \* Wire.tla's pure operators (its constants and variables are irrelevant for them)
 W == INSTANCE Wire WITH Handles <- {}, Sizes <- <<>>, HdrLen <- 8, MemBound <- 1, High <- 0, Low <- 0,
                         Accept <- {}, SealAt <- <<>>, BugDrainWrong <- FALSE,
-                        BugLowWaterStrict <- FALSE, BugNoRereg <- FALSE,
+                        BugLowWaterStrict <- FALSE, BugNoRereg <- FALSE, BugCloseLeaves <- FALSE,
                         issued <- 0, q <- 0, pulled <- 0, dropped <- 0, outbuf <- 0, wire <- 0,
                         pos <- 0, wlen <- 0, pc <- 0, batch <- 0, took <- 0, listening <- 0,
                         registered <- 0, sealed <- 0, writable <- 0
